@@ -12,7 +12,7 @@ rsync -a --delete --exclude '.git' --exclude 'harness/target*' --exclude evidenc
 sed -i 's|path = "/repo"|path = "/tmp/mt-repo"|' /tmp/mt-verif/harness/Cargo.toml
 cd /tmp/mt-verif/harness
 cargo build --release --offline 2>&1 | grep -E "^error" -A8 || true
-./target/release/vh run $P --cases $N "$@" > /tmp/mt-run.out 2>&1 || true
+timeout 240 ./target/release/vh run $P --cases $N "$@" > /tmp/mt-run.out 2>&1 || true
 grep -v '^{"t"' /tmp/mt-run.out | cut -c1-220 | sort | uniq -c | sort -rn | head -4
 tail -1 /tmp/mt-run.out | python3 -c "
 import sys,json
